@@ -74,7 +74,7 @@ def cond_facts(c, truth, out):
     if cm is not None:
         out.append(("cmp",) + cm)
         return
-    if k == "mcall" and c.get("name") in ("is_some", "is_none", "is_ok", "is_err", "is_empty", "contains_key", "contains", "starts_with", "ends_with", "is_char_boundary"):
+    if k == "mcall" and c.get("name") in ("is_some", "is_none", "is_ok", "is_err", "is_empty", "contains_key", "contains", "starts_with", "ends_with", "is_char_boundary", "exists", "is_file", "is_dir", "try_exists"):
         arg = ir.place_str(c["a"][0]) if c.get("a") else ""
         out.append(("pred", ir.place_str(c["recv"]), c["name"], arg, truth))
         return
